@@ -92,7 +92,10 @@ func sivKey(v string, id uint32, key []byte) (*aessiv.Key, error) {
 func sivPrimitive(api, v string, id uint32, key []byte) (tink.DeterministicAEAD, error) {
 	switch api {
 	case "sub":
-		return dsubtle.NewAESSIV(bytes.Clone(key))
+		// the caller's key buffer is overwritten after construction
+		kb := bytes.Clone(key)
+		defer hx.Scribble(kb)
+		return dsubtle.NewAESSIV(kb)
 	case "key":
 		k, err := sivKey(v, id, key)
 		if err != nil {
@@ -242,7 +245,9 @@ func runSIV(f []string) string {
 func runKWP(f []string) string {
 	kek, data := hx.UH(f[2]), hx.UH(f[3])
 	mu := parseMut(f[4])
-	k, err := ksubtle.NewKWP(kek)
+	kekBuf := bytes.Clone(kek)
+	k, err := ksubtle.NewKWP(kekBuf)
+	hx.Scribble(kekBuf)
 	if err != nil {
 		return "newerr"
 	}
